@@ -34,6 +34,12 @@ def run(ctx, model_ok):
     i = big.index(D.TAG_EVENTS) + 8
     big = big[:i] + struct.pack('<Q', 64 * 6000) + big[i + 8:]
     files.append(('v3-declares-6000-records', big))
+    # directed: the stackshot (opaque bytes before its end marker) itself holds an older thread-map section and an events
+    # chunk, tags and all: nothing of it is a section of THIS dump, at whatever offset the dump is cut
+    inner = D.build_v3([(9, 9, b'old')], [[cc.rand_record(rng, 77)]])
+    inner = inner[inner.index(D.TAG_THREADMAP):]
+    files.append(('v3-sections-inside-the-stackshot', D.build_v3([(1, 1, b'p')], [[cc.rand_record(rng, 1), cc.rand_record(rng, 2)]],
+                                                               filler=b'junk' + inner + b'more')))
     cases = [{'file': f.hex(), 'ks': list(range(len(f) + 1)), 'brief': True, 'want_events': True} for _, f in files]
     res = vlib.run_impl('run_container.py', {'cases': cases}, timeout=3000)['results']
     ctx.evaluations = sum(len(f) + 1 for _, f in files)
